@@ -18,7 +18,9 @@ LEVEL_TEXT = ('Unbounded Lean theorems: (0) ALL SIZES of the hand-modelled surfa
               'and RotatedPlanar3DCode (Lx,Ly,Lz>=1) have IsDistance n H (min Lx (Ly*Lz)), RhombicToricCode (all L_i even >=2) has '
               'IsDistance n H (min Lx Ly Lz), RhombicPlanarCode (Lx,Ly>=2, Lz>=1) has IsDistance n H (min (Lx*Ly+(Lx-1)*(Ly-1)) Lz) '
               '(the weight of the X sheet or the height, NOT min(Lx,Ly,Lz): RhombicPlanarCode(2,2,7).d = 5 and that is the true '
-              'distance), Color488Code (Lx=Ly=L>=1) has IsDistance (8L^2) H (2L), on the matrices assembled from the '
+              'distance), Color488Code (Lx,Ly>=1, rectangular sizes included since the repair of its logical operators) has '
+              'IsDistance (8*Lx*Ly) H (min (2Lx) (2Ly)), Color666ToricCode (Lx=Ly=L>=1) has IsDistance (18L^2) H (4L), on the '
+              'matrices assembled from the '
               'hand-written lattice model, and code.d (min weight over the listed logicals) equals that value, for every '
               'lattice size; RotatedToric3DCode (Lx,Ly>=2 not both odd, Lz>=1): IsDistance n H d and code.d = d with d = min Lx Ly '
               '(even x even, k=2), min Ly (Lx*Lz) (odd Lx: defect line, logical Z a wall of Y letters), min Lx (Ly*Lz) (odd Ly) - '
@@ -36,10 +38,16 @@ LEVEL_TEXT = ('Unbounded Lean theorems: (0) ALL SIZES of the hand-modelled surfa
               'lies on one coloured cube of the slab, every edge across on two (checkerboard slab lemma, periodic and open) - '
               'a Z line of the toric code moves through rows of planar stars (products of two triangles of a vertex), the Z '
               'stack of the planar code is equivalent to every vertical stack of x- or y-edges because the z-legs of a '
-              'vertical stack of triangles cancel in pairs; 4.8.8 colour code: a column of qubits has 2L translates, through '
-              'the column of squares or the column of octagons and squares between them); (0b) DEFORMED CODES: a '
+              'vertical stack of triangles cancel in pairs; 4.8.8 colour code: a column of qubits (weight 2Ly) has 2Lx translates, '
+              'a row (weight 2Lx) has 2Ly, through the column of squares or the column of octagons and squares between them; 6.6.6 toric colour code: in face '
+              'coordinates the sheared torus is an unsheared 3L x 3L torus of hexagons, a listed zig-zag string has 3L '
+              'translates (ladder through the column of faces between neighbours) and the qubits they leave free are L '
+              'closed straight lines of 6L qubits, homologous to the zig-zag only modulo 2: their equivalence comes from '
+              'C04 (Lattice.same_class: a line meets every face in 0 or 2 qubits and has the intersection parities of the '
+              'zig-zag with the four listed strings - one crossing with the string of the other frame and colour, the line '
+              'winds twice along a string of its own frame), 3L + L = 4L representatives using every qubit once); (0b) DEFORMED CODES: a '
               'per-qubit permutation of {X,Y,Z} preserves weight, commutation and span, hence IsDistance and code.d '
-              '(distance_deformation_invariant, every n, H, d); so every deformed code of these twelve classes (every name/axis '
+              '(distance_deformation_invariant, every n, H, d); so every deformed code of these thirteen classes (every name/axis '
               'get_deformation accepts) has the same distance, for every size (distance_deformed); (1) distance criterion and '
               'packing bound for every valid [[n,k]] code (a '
               'non-trivial logical anticommutes with some listed logical, by C04; d pairwise disjoint representatives '
@@ -48,7 +56,7 @@ LEVEL_TEXT = ('Unbounded Lean theorems: (0) ALL SIZES of the hand-modelled surfa
               'generators, all products computed in the lanes of one number; exhaustive certificates: enumeration of '
               'every Pauli of weight < d on per-qubit effect tables, sound by bilinearity of the symplectic form and '
               'C04). Instance theorems: for all 16 exported classes, every supported size up to the table bound (2-D '
-              'L<=6, 3-D L<=4, n<=400; 458 of 462 instances) has IsDistance n H code.d, kernel-checked (decide +kernel) '
+              'L<=6, 3-D L<=4, n<=400; 488 of 492 instances) has IsDistance n H code.d, kernel-checked (decide +kernel) '
               'on tables and certificates regenerated from /repo on every run, so the theorems are re-proved against '
               'the current source. The model of `d` (min weight over listed logicals) is tied to code.d by a '
               'differential stream over all table sizes and deformations.')
@@ -63,9 +71,9 @@ LEVEL_NOTE = ('trusted: Lean kernel + standard axioms; translator harness/regen_
               'evaluation is redundant with the undeformed instance theorem. All-sizes (unbounded in L) distance '
               'theorems exist for Toric2DCode, Planar2DCode, RotatedPlanar2DCode, Toric3DCode, Planar3DCode, '
               'RotatedPlanar3DCode, XCubeCode, RotatedToric3DCode, HollowPlanar3DCode (no deformation offered), '
-              'RhombicToricCode, RhombicPlanarCode, Color488Code only '
+              'RhombicToricCode, RhombicPlanarCode, Color488Code, Color666ToricCode only '
               '(undeformed and deformed; trusted in addition: the correspondence harness tying the hand-written '
-              'lattice models to the classes, as in C01); the other 4 classes are covered by the bounded instance '
+              'lattice models to the classes, as in C01); the other 3 classes are covered by the bounded instance '
               'theorems (named ..._partial).')
 TECHNIQUE = ('Lean 4 proof: certificate-checker soundness (unbounded) + kernel-checked instance theorems over tables '
              'and certificates regenerated from the source; differential correspondence of code.d; independent '
@@ -84,7 +92,7 @@ RULE = ('stream 1: one `dist` op per (class, size, deformation): model distance 
 # all-sizes distance theorems of the hand-modelled classes (built and axiom-audited with C17)
 ALLSIZES_CLASSES = ['Toric2DCode', 'Planar2DCode', 'RotatedPlanar2DCode', 'Toric3DCode', 'Planar3DCode',
                     'RotatedPlanar3DCode', 'XCubeCode', 'HollowPlanar3DCode', 'RotatedToric3DCode', 'RhombicToricCode',
-                    'RhombicPlanarCode', 'Color488Code']
+                    'RhombicPlanarCode', 'Color488Code', 'Color666ToricCode']
 PROPERTY_MODULES = ['PanqecVerif.Properties.C17'] + [f'PanqecVerif.Properties.C17{c}' for c in ALLSIZES_CLASSES]
 
 # instances of the regenerated tables for which no certificate is expected (see LEVEL_NOTE)
